@@ -489,6 +489,9 @@ impl World for WorldG {
                     } else {
                         AuthVar::Right
                     };
+                    if rng.chance(1, 25) {
+                        caller = 200;
+                    }
                     GOp::Consume { gw: g as u8, caller, msg, auth, abort: opt_abort(rng, t.abort, 150) }
                 }
                 3 => {
@@ -613,7 +616,7 @@ impl World for WorldG {
                     let auth = if fault && t.auth { *rng.pick(&[AuthVar::Stranger, AuthVar::Nobody, AuthVar::Counterparty, AuthVar::Owner, AuthVar::RightOtherArgs]) } else { AuthVar::Right };
                     GOp::CallContract {
                         gw: g as u8,
-                        sender: rng.below(4) as u8,
+                        sender: if rng.chance(1, 12) { 200 + rng.below(2) as u8 } else { rng.below(4) as u8 },
                         chain: StrSpec::gen(rng),
                         addr: StrSpec::gen(rng),
                         payload: PayloadSpec::gen(rng, true),
